@@ -450,9 +450,9 @@ func (t *relTotals) roundTripFlag(stream string, doc JV, ec *EvalCase) {
 	// (deeply equal). v itself may differ from RT v only in what encode documents as droppable
 	// (a rollout without buckets); that this cannot change evaluation is checked below.
 	v3, err3 := ser.UnmarshalFeatureFlag(e2)
-	d1, d2 := flagDumpJSON(&v2), ""
+	d1, d2 := flagDumpJSON(&v2)+deepSuffix(&v2), ""
 	if err3 == nil {
-		d2 = flagDumpJSON(&v3)
+		d2 = flagDumpJSON(&v3) + deepSuffix(&v3)
 	}
 	if !sameJSONBytes(e1, e2) || d1 != d2 {
 		// open finding F5: a negative debugEventsUntilDate wraps around and needs two steps
@@ -575,7 +575,7 @@ func (t *relTotals) roundTripSegment(stream string, doc JV) {
 	}
 	e2, _ := ser.MarshalSegment(v2)
 	v3, err3 := ser.UnmarshalSegment(e2)
-	if !sameJSONBytes(e1, e2) || err3 != nil || segDumpJSON(&v2) != segDumpJSON(&v3) {
+	if !sameJSONBytes(e1, e2) || err3 != nil || segDumpJSON(&v2)+deepSuffix(&v2) != segDumpJSON(&v3)+deepSuffix(&v3) {
 		t.violation(stream, "decode(encode(v)) is not a fixed point after one step (segment)", map[string]any{"doc": docText(doc), "encoded1": string(e1), "encoded2": string(e2),
 			"v": json.RawMessage(segDumpJSON(&v2)), "rt": json.RawMessage(segDumpJSON(&v3))})
 		return
@@ -653,8 +653,8 @@ func checkC15(seed uint64, replayDir, corpusDir string) (map[string]any, int) {
 					t.violation("builders", "encoded builder-built flag is rejected: "+err.Error(), map[string]any{"flag": wf, "encoded": string(e)})
 					return
 				}
-				if flagDumpJSON(&v) != flagDumpJSON(&v2) {
-					t.violation("builders", "decode(encode(v)) differs from the builder-built v", map[string]any{"flag": wf, "encoded": string(e),
+				if flagDumpJSON(&v)+builderDeep(&v) != flagDumpJSON(&v2)+builderDeep(&v2) {
+					t.violation("builders", "decode(encode(v)) differs from the builder-built v", map[string]any{"flag": wf, "encoded": string(e), "first_difference": firstDiff(deepDump(&v), deepDump(&v2)),
 						"v": json.RawMessage(flagDumpJSON(&v)), "rt": json.RawMessage(flagDumpJSON(&v2))})
 				}
 				t.distinct["b:"+flagDumpJSON(&v)] = true
@@ -672,8 +672,8 @@ func checkC15(seed uint64, replayDir, corpusDir string) (map[string]any, int) {
 					t.violation("builders", "encoded builder-built segment is rejected: "+err.Error(), map[string]any{"segment": ws})
 					return
 				}
-				if segDumpJSON(&v) != segDumpJSON(&v2) {
-					t.violation("builders", "decode(encode(v)) differs from the builder-built segment", map[string]any{"segment": ws, "encoded": string(e)})
+				if segDumpJSON(&v)+builderDeep(&v) != segDumpJSON(&v2)+builderDeep(&v2) {
+					t.violation("builders", "decode(encode(v)) differs from the builder-built segment", map[string]any{"segment": ws, "encoded": string(e), "first_difference": firstDiff(deepDump(&v), deepDump(&v2))})
 				}
 			})
 		}
@@ -728,13 +728,13 @@ func checkC16(seed uint64, replayDir, corpusDir string) (map[string]any, int) {
 				if kd.kind == "flag" {
 					vals, es, ns := decodeFlagPaths(data)
 					for k := range vals {
-						dumps = append(dumps, flagDumpJSON(&vals[k]))
+						dumps = append(dumps, flagDumpJSON(&vals[k])+deepSuffix(&vals[k]))
 					}
 					errs, names = es, ns
 				} else {
 					vals, es, ns := decodeSegmentPaths(data)
 					for k := range vals {
-						dumps = append(dumps, segDumpJSON(&vals[k]))
+						dumps = append(dumps, segDumpJSON(&vals[k])+deepSuffix(&vals[k]))
 					}
 					errs, names = es, ns
 				}
@@ -778,7 +778,7 @@ func checkC16(seed uint64, replayDir, corpusDir string) (map[string]any, int) {
 					t.violation("paths", dnames[k]+": rejects the encoder's own output: "+derrs[k].Error(), map[string]any{"flag": wf})
 					return
 				}
-				if flagDumpJSON(&vals[k]) != flagDumpJSON(&vals[0]) {
+				if flagDumpJSON(&vals[k])+deepSuffix(&vals[k]) != flagDumpJSON(&vals[0])+deepSuffix(&vals[0]) {
 					t.violation("paths", "decode paths disagree: "+dnames[0]+" vs "+dnames[k], map[string]any{"flag": wf})
 					return
 				}
@@ -800,7 +800,7 @@ func checkC16(seed uint64, replayDir, corpusDir string) (map[string]any, int) {
 					return
 				}
 				if !sameJSONBytes(outs[0], outs[k]) {
-					t.violation("paths", "segment encode paths disagree: "+names[0]+" vs "+names[k], map[string]any{"segment": ws})
+					t.violation("paths", "segment encode paths disagree: "+names[0]+" vs "+names[k], map[string]any{"segment": ws, "a": string(outs[0]), "b": string(outs[k])})
 					return
 				}
 			}
@@ -809,7 +809,7 @@ func checkC16(seed uint64, replayDir, corpusDir string) (map[string]any, int) {
 			}
 			vals, derrs, dnames := decodeSegmentPaths(outs[0])
 			for k := range vals {
-				if derrs[k] != nil || segDumpJSON(&vals[k]) != segDumpJSON(&vals[0]) {
+				if derrs[k] != nil || segDumpJSON(&vals[k])+deepSuffix(&vals[k]) != segDumpJSON(&vals[0])+deepSuffix(&vals[0]) {
 					t.violation("paths", "segment decode paths disagree or reject: "+dnames[k], map[string]any{"segment": ws})
 					return
 				}
@@ -849,13 +849,55 @@ func decodeDump(kind string, d JV) (string, bool) {
 		if err != nil {
 			return "", false
 		}
-		return flagDumpJSON(&v), true
+		return flagDumpJSON(&v) + deepSuffix(&v), true
 	}
 	v, err := ser.UnmarshalSegment(d.plainJSON())
 	if err != nil {
 		return "", false
 	}
-	return segDumpJSON(&v), true
+	return segDumpJSON(&v) + deepSuffix(&v), true
+}
+
+// deepSuffix: the value as reflect.DeepEqual sees it (nil and empty slices and maps told apart,
+// unexported precomputed fields included) — what "deeply equal" means in C15 and C17.
+// firstDiff shows where two dumps part (with a little context), for the replay file.
+func firstDiff(a, b string) string {
+	i := 0
+	for i < len(a) && i < len(b) && a[i] == b[i] {
+		i++
+	}
+	if i == len(a) && i == len(b) {
+		return ""
+	}
+	lo := i - 120
+	if lo < 0 {
+		lo = 0
+	}
+	cut := func(s string) string {
+		hi := i + 120
+		if hi > len(s) {
+			hi = len(s)
+		}
+		return s[lo:hi]
+	}
+	return fmt.Sprintf("at %d: %q vs %q", i, cut(a), cut(b))
+}
+
+// builderDeep: the deep dump with empty and nil slices and maps identified. A builder keeps the
+// (possibly empty, non-nil) slice it was handed where the decoder leaves nil; JSON cannot express
+// that difference, so it is outside "values that the schema can express". Everything else —
+// every field, exported or not, at every depth — is compared.
+func builderDeep(v any) string {
+	d := deepSuffix(v)
+	d = strings.ReplaceAll(d, "[len=0:]", "nil")
+	return strings.ReplaceAll(d, "map{}", "nil")
+}
+
+func deepSuffix(v any) string {
+	if os.Getenv("VERIF_NO_DEEP") != "" {
+		return ""
+	}
+	return "\n" + deepDump(v)
 }
 
 func checkC17(seed uint64, replayDir, corpusDir string) (map[string]any, int) {
@@ -863,7 +905,25 @@ func checkC17(seed uint64, replayDir, corpusDir string) (map[string]any, int) {
 	n := 5000 * tierScale()
 	base := newRng(seed ^ hashStr("C17"))
 	var units []*UnitCase
+	relN := 0
+	relSeen := map[uint64]bool{}
 	rel := func(stream, what, kind string, a, b JV) {
+		// both documents of the pair also go to the model's decoder (a relation between two
+		// decodings holds just as well when both are wrong in the same way)
+		for _, d := range []JV{a, b} {
+			d := d
+			k := "decflag"
+			if kind == "segment" {
+				k = "decseg"
+			}
+			h := hashStr(k + string(d.plainJSON()))
+			if relSeen[h] {
+				continue
+			}
+			relSeen[h] = true
+			relN++
+			units = append(units, &UnitCase{ID: fmt.Sprintf("C17/%s/rel/%s/%d", k, stream, relN), Kind: k, Doc: &d})
+		}
 		recovering(t, stream, func() map[string]any { return map[string]any{"a": docText(a), "b": docText(b), "what": what} }, func() {
 			da, oka := decodeDump(kind, a)
 			db, okb := decodeDump(kind, b)
